@@ -11,3 +11,4 @@ import TlxVerif.Props.C17
 #print axioms TlxVerif.C17.splay_clear_frees_all
 #print axioms TlxVerif.C17.totalOrder_less
 #print axioms TlxVerif.C17.totalOrder_greater
+#print axioms TlxVerif.C17.splay_check_characterised
